@@ -127,6 +127,7 @@ class SDictV(SV):
         self.get = z3.Function(P.names.fresh(f"{tag}_get"), key_sort, val_sort)
         self.kkey = z3.Function(P.names.fresh(f"{tag}_key"), z3.IntSort(), key_sort)
         self.pos = z3.Function(P.names.fresh(f"{tag}_pos"), key_sort, z3.IntSort())
+        P.ghost.setdefault("order_enums", {})[self.kkey.name()] = lambda P2, d=self: d.sorted_key_fn(P2)
         self.n = P.fresh_int(f"{tag}_len")
         i = z3.Int(P.names.fresh("di"))
         k = z3.Const(P.names.fresh("dk"), key_sort)
@@ -508,6 +509,7 @@ class SDict2V(SV):
         self.has2, self.get2 = f("has2", S, S, B), f("get2", S, S, val_sort)
         self.len2, self.key2, self.pos2 = f("len2", S, Iz), f("key2", S, Iz, S), f("pos2", S, S, Iz)
         self.skey1, self.spos1 = f("sorted_key", Iz, S), f("sorted_pos", S, Iz)
+        P.ghost.setdefault("order_enums", {})[self.key1.name()] = lambda P2, d=self: d.skey1
         self.skey2, self.spos2 = f("sorted_key2", S, Iz, S), f("sorted_pos2", S, S, Iz)
         i, j = z3.Int(P.names.fresh("d2i")), z3.Int(P.names.fresh("d2j"))
         k, k2 = z3.Const(P.names.fresh("d2k"), S), z3.Const(P.names.fresh("d2k2"), S)
